@@ -23,9 +23,10 @@ COPY_OP = 'map.copy_rect'      # get_rect_tiles, then set_rect_tiles(result)
 RELOAD_OP = 'game.save_reload'  # write the cart, load it back, carry on
 REPLACE_OP = 'game.replace_section'  # assign a new section object
 DEEPCOPY_OP = 'game.deepcopy'   # carry on with copy.deepcopy(game)
+CLI_OP = 'cli.call'             # an unrelated p8tool command in this process
 RAW_OP = 'game.write_cart_data'
 ACCESSOR_OPS = ACCESSOR_OPS + (COPY_OP, 'gfx.copy_sprite', RELOAD_OP,
-                               REPLACE_OP, DEEPCOPY_OP)
+                               REPLACE_OP, DEEPCOPY_OP, CLI_OP)
 ALL_OPS = ACCESSOR_OPS + (RAW_OP,)
 
 B = models.BOUNDARIES
@@ -122,6 +123,10 @@ def gen_op(rng, kind):
         a = {'rect': _tile_rect(rng),
              'x': _edge(rng, 0, 127, [0, 120, 125, 126, 127]),
              'y': _edge(rng, 0, 63, [0, 30, 31, 32, 58, 60, 62, 63])}
+        if rng.random() < 0.12:
+            # an origin beyond the edge: the whole rectangle is discarded
+            a['x'] = rng.choice([128, 129, 130, 135, 140, a['x']])
+            a['y'] = rng.choice([64, 65, 70, a['y'], a['y']])
     elif kind == COPY_OP:
         x = _edge(rng, 0, 127, [0, 120, 125, 126, 127])
         y = _edge(rng, 0, 63, [0, 30, 31, 32, 60, 62, 63])
@@ -147,6 +152,10 @@ def gen_op(rng, kind):
         a = {'fmt': rng.choice(['png', 'png', 'p8'])}
     elif kind == DEEPCOPY_OP:
         a = {}
+    elif kind == CLI_OP:
+        a = {'argv': rng.choice([['--debug', 'stats'], ['-q', 'stats'],
+                                 ['--debug', 'listlua'], ['stats']]),
+             'fmt': rng.choice(['p8'] * 5 + ['png'])}
     elif kind == REPLACE_OP:
         a = {'section': rng.choice(['gfx', 'map', 'gff', 'music', 'sfx',
                                     'sfx', 'music']),
@@ -194,6 +203,12 @@ def gen_op(rng, kind):
             e = s
         elif r < 0.7:
             s, e = 0, 0x4300
+        elif r < 0.74:
+            # sizes with a meaning of their own: a whole 32 KiB ROM image, the
+            # code area, 64 KiB
+            s = rng.choice([0, 0, 0, 1, 0x4300])
+            e = s + rng.choice([0x8000, 0x8000, 0x10000, 0x8000 - 0x4300,
+                                0x4301, 0x8020])
         elif r < 0.8:
             s = rng.randint(0, 0x4300)
             e = 0x4300 + rng.randint(1, 40)
@@ -203,13 +218,25 @@ def gen_op(rng, kind):
         a = {'start_addr': s, 'len': e - s, 'data_seed': rng.randint(1, 10**9),
              'as_bytearray': rng.random() < 0.3,
              'positional': rng.random() < 0.5}
+        if rng.random() < 0.08:
+            # the payload is what to_bytes() of one of the cart's own
+            # sections returns, written somewhere it overlaps or follows
+            sec = rng.choice(['gfx', 'map', 'gff', 'music', 'sfx'])
+            size = refcodec.REGION_SIZE[sec]
+            base = refcodec.REGION_ADDR[sec]
+            s = rng.choice([max(0, base - size // 2), base + size // 2,
+                            base + 1, base, rng.randint(0, 0x4300 - size)])
+            s = min(s, 0x4300 - size)
+            a = {'start_addr': s, 'len': size, 'own_section': sec,
+                 'positional': rng.random() < 0.5}
     else:
         raise core.HarnessError(kind)
     if kind != RAW_OP and rng.random() < 0.5:
         a['pos'] = True
     if kind in ('gfx.set_sprite', 'map.set_rect_tiles') and \
             rng.random() < 0.4:
-        a['rows_as'] = rng.choice(['tuple', 'iter', 'gen', 'bytearray'])
+        a['rows_as'] = rng.choice(['tuple', 'iter', 'gen', 'bytearray',
+                                   'reused-buffer'])
     return {'op': kind, 'args': a}
 
 
@@ -403,7 +430,12 @@ def _model(m, op, a):
     """Apply op to the model -> (model_result, rejected_expected)."""
     sec, meth = op.split('.')
     if op == RAW_OP:
-        data = core.rnd_bytes(a['data_seed'], a['len'])
+        if a.get('own_section'):
+            sec = a['own_section']
+            base = refcodec.REGION_ADDR[sec]
+            data = bytes(m.m[base:base + refcodec.REGION_SIZE[sec]])
+        else:
+            data = core.rnd_bytes(a['data_seed'], a['len'])
         return None, not m.write_cart_data(data, a['start_addr'])
     kw = {k: v for k, v in a.items() if k not in ('as_bytearray', 'pos',
                                                   'rows_as')}
@@ -452,7 +484,7 @@ class ArgumentModified(Exception):
 def _check_args_untouched(op, passed, original, a):
     kind = a.get('rows_as') or ('bytearray' if a.get('as_bytearray')
                                 else 'list')
-    if kind in ('iter', 'gen'):
+    if kind in ('iter', 'gen', 'reused-buffer'):
         return            # one-shot iterators are consumed by design
     now = [list(r) for r in passed]
     if now != [list(r) for r in original]:
@@ -474,6 +506,14 @@ def _rows(rows, a):
         return [iter(list(r)) for r in rows]
     if kind == 'gen':
         return ((v for v in r) for r in rows)
+    if kind == 'reused-buffer':
+        # a scanline producer that refills and yields one and the same buffer
+        def scan():
+            buf = bytearray()
+            for r in rows:
+                buf[:] = bytes(r)
+                yield buf
+        return scan()
     return [list(r) for r in rows]
 
 
@@ -503,8 +543,11 @@ def _real(g, op, a):
             _check_args_untouched(op, args[0], a['rect'], a)
         return r
     if op == RAW_OP:
-        data = core.rnd_bytes(a['data_seed'], a['len'])
-        if a.get('as_bytearray'):
+        if a.get('own_section'):
+            data = getattr(g, a['own_section']).to_bytes()
+        else:
+            data = core.rnd_bytes(a['data_seed'], a['len'])
+        if a.get('as_bytearray') and not a.get('own_section'):
             data = bytearray(data)
         if a.get('positional', True):
             return g.write_cart_data(data, a['start_addr'])
@@ -595,7 +638,23 @@ def execute(sc):
             exc = None
             real = mres = None
             rejected = False
-            if op == DEEPCOPY_OP:
+            if op == CLI_OP:
+                # picotool's command line is used in the same process (its
+                # global flags stay in force afterwards, as they do in
+                # picotool itself); the cart in memory is not involved
+                from pico8 import tool
+                name = 'cli%d.%s' % (step, 'p8' if a['fmt'] == 'p8'
+                                     else 'p8.png')
+                other = refcodec.make_cart(code=b'cli_marker=1\n')
+                w.put(name, refcodec.encode_any(name, other))
+                try:
+                    tool.main(a['argv'] + [w.p(name)])
+                    core.bump(res['probes'], 'cli-call-in-between:' +
+                              a['argv'][0])
+                except BaseException as e:
+                    exc = e if isinstance(e, Exception) else None
+                mres, rejected, real = None, False, None
+            elif op == DEEPCOPY_OP:
                 # the history continues on a deep copy; the original must
                 # stay as it is from here on
                 import copy
